@@ -140,6 +140,6 @@ BOUNDED = {
                            'Value::try_from_xsd_integer / _decimal / _double'],
              'bound': 'quick: about 28 000 texts (thorough: about 1.6 million): both signs x coefficient lengths 1..34 (with and without trailing zeros, zero coefficients) x exponents '
                       '(quick: every exponent in -80..80, every 61st beyond and the edges; thorough: every exponent -6176..6111) - the Display and JSON texts are plain decimal text, denote exactly the value '
-                      '(exact comparison in CPython decimal) and read back as an equal number; 1 400 FEEL literals of 1..34 significant digits with the point at every position, and 150 xsd:integer / '
-                      'decimal / double input texts, evaluate to exactly the value written (bounded duplicate of the Verus contract on scientific_to_plain, and the only check of the C library side)'}],
+                      '(exact comparison in CPython decimal) and read back as an equal number; 1 400 FEEL literals of 1..34 significant digits with the point at every position, and 170 xsd:integer / '
+                      'decimal / double input texts (also with no digits on one side of the point), evaluate to exactly the value written (bounded duplicate of the Verus contract on scientific_to_plain, and the only check of the C library side)'}],
 }
